@@ -73,4 +73,10 @@ META = {
   text="Generated search over event layouts, field subsets, column orders and integer sign patterns; every stored cell is compared with the model value of the field it names. Exploration with bounded sizes; no absence claim.",
   note="Trusted: refmodel.TypedCell (documented type mapping), model.FieldValue, sim JSON rendering, pgx codecs for transport.",
  ),
+ "C12": dict(
+  design_ref="DESIGN.md §5 C12",
+  technique="rapid generated filters vs an independent reference predicate (row builder with capturing connection); metamorphic full-path run against a filtering and a non-filtering node",
+  text="Generated search over operators, value kinds, boundary values and aggregations with an independent predicate as oracle, and a metamorphic relation for the server-side pre-filter (results must not depend on whether the node applies address/topics).",
+  note="Trusted: refmodel.Filter.Accepts/Fold, model.Project, sim.LogMatches (eth_getLogs semantics).",
+ ),
 }
